@@ -269,6 +269,56 @@ Example verify_nonvacuous :
   /\ verify (mkCfg VERIFY_SERVER HOST_RECEPTOR (str "node-a"%string) [repeat 9 31; ex_d256]) ex_facts ex_now = Refuse R_PINLEN.
 Proof. vm_compute. repeat split; reflexivity. Qed.
 
+(* ---------- the configuration layer: fingerprints ---------- *)
+Lemma decode_fingerprint_len s b : decode_fingerprint s = Some b -> legal_len (blen b) = true.
+Proof.
+  unfold decode_fingerprint, legal_len. destruct (hex_decode (strip_colons s)) as [x|]; [|discriminate].
+  destruct ((blen x =? 32) || (blen x =? 64)) eqn:E; [|discriminate].
+  intro H. inversion H; subst. apply orb_true_iff in E as [E|E]; rewrite E; cbn; now rewrite ?orb_true_r.
+Qed.
+
+(* every pin a configuration entry can produce has a legal length ... *)
+Theorem configured_pins_legal_proof l pins :
+  decode_fingerprints l = Some pins -> forall p, In p pins -> legal_len (blen p) = true.
+Proof.
+  revert pins. induction l as [|s r IH]; intros pins H p Hi; cbn [decode_fingerprints] in H.
+  - inversion H; subst. destruct Hi.
+  - destruct (decode_fingerprint s) as [b|] eqn:E; [|discriminate].
+    destruct (decode_fingerprints r) as [t|]; [|discriminate].
+    inversion H; subst. destruct Hi as [<-|Hi]; [now apply (decode_fingerprint_len s)|now apply (IH t)].
+Qed.
+
+Lemma verify_pinlen_from_pins c f now :
+  verify c f now = Refuse R_PINLEN -> pins_step (c_pins c) f = Refuse R_PINLEN.
+Proof.
+  unfold verify. destruct (f_present f); cbn [negb]; [|discriminate].
+  destruct (f_parses f); cbn [negb]; [|discriminate].
+  destruct (role_of (c_vtype c)); [|discriminate].
+  destruct (pins_step_cases (c_pins c) f) as [H|[H|H]]; rewrite H; try congruence.
+  destruct (x509_verify _ _ _ _); cbn [negb]; [|discriminate].
+  unfold names_step. destruct (c_htype c =? HOST_RECEPTOR); [|discriminate].
+  destruct (f_names f) as [ns| |]; try discriminate. destruct (existsb _ ns); discriminate.
+Qed.
+
+(* ... so with pins that came through the configuration the verifier never stops at the length
+   error: a configured pin list is either matched or not *)
+Theorem configured_pins_never_length_error_proof l c f now :
+  decode_fingerprints l = Some (c_pins c) -> verify c f now <> Refuse R_PINLEN.
+Proof.
+  intros Hd Hv. apply verify_pinlen_from_pins in Hv. apply pins_step_pinlen in Hv as [p [Hi Hl]].
+  rewrite (configured_pins_legal_proof _ _ Hd _ Hi) in Hl. discriminate.
+Qed.
+
+(* spelling: case of the hex digits and ':' separators do not matter; anything else is refused *)
+Example decode_fingerprint_spellings :
+  decode_fingerprint (str "AB:cd:Ef:01:23:45:67:89:ab:cd:ef:01:23:45:67:89:ab:cd:ef:01:23:45:67:89:ab:cd:ef:01:23:45:67:89"%string)
+  = decode_fingerprint (str "abcdef0123456789abcdef0123456789abcdef0123456789abcdef0123456789"%string)
+  /\ decode_fingerprint (str "abcdef0123456789abcdef0123456789abcdef0123456789abcdef0123456789"%string) <> None
+  /\ decode_fingerprint (str "abcd"%string) = None
+  /\ decode_fingerprint (str "zz"%string) = None
+  /\ decode_fingerprint (str "abc"%string) = None.
+Proof. vm_compute. repeat split; try reflexivity; discriminate. Qed.
+
 (* ---------- GetClientTLSConfig ---------- *)
 Theorem client_config_shape p expected htype :
   (p_skip p = true ->
